@@ -44,109 +44,54 @@ example : ∃ s, run (St.init 100 2)
   decide
 
 
-/-- Handle records agree with block records (code after repair 9cd85f1): in every
-reachable state in which no "stale delete" decrement happened (`stale = 0`, see
-below), for every real handle and block the handle's count EQUALS the number of the
-block's addresses live for that handle plus the outstanding tokens — increments
-whose block write has not happened (yet, or ever: crash) and releases whose
+/-- Handle records agree with block records (code after repairs 9cd85f1, 2a2a7ee, e889066):
+in EVERY reachable state, for every real handle and block, the handle's count EQUALS the
+number of the block's addresses live for that handle plus the outstanding tokens —
+increments whose block write has not happened (yet, or ever: crash) and releases whose
 decrement has not happened. -/
 theorem handle_block_agree (r0 nb : Nat) (evs : List Ev) (s : St)
-    (h : run (St.init r0 nb) evs = some s) (hst : s.stale = 0) : HEq s :=
-  (inv_run (inv_init r0 nb) h).2 hst
+    (h : run (St.init r0 nb) evs = some s) : HEq s :=
+  (inv_run (inv_init r0 nb) h).2
 
 /-- Quiescent agreement at full strength: with no token outstanding (nothing in flight,
-nothing abandoned) the handle count of every block equals the block's records. -/
+nothing abandoned by a crash) the handle count of every block equals the block's records. -/
 theorem handle_block_agree_quiescent (r0 nb : Nat) (evs : List Ev) (s : St)
-    (h : run (St.init r0 nb) evs = some s) (hst : s.stale = 0) (hq : s.creds = []) :
+    (h : run (St.init r0 nb) evs = some s) (hq : s.creds = []) :
     ∀ h' b, h' ≠ 0 → hcount s h' b = liveAt s b h' := by
   intro h' b hh
-  have := handle_block_agree r0 nb evs s h hst h' b hh
+  have := handle_block_agree r0 nb evs s h h' b hh
   rw [hq] at this
   simpa [credTot] using this
 
 /-- Mid-operation statement: at every point of every execution (operations in flight,
 crashed threads) handle counts never under-count block records. -/
-theorem handle_ge_block_partial (r0 nb : Nat) (evs : List Ev) (s : St)
-    (h : run (St.init r0 nb) evs = some s) (hst : s.stale = 0) :
+theorem handle_ge_block (r0 nb : Nat) (evs : List Ev) (s : St)
+    (h : run (St.init r0 nb) evs = some s) :
     ∀ h' b, h' ≠ 0 → liveAt s b h' + credTot h' b s.creds ≤ hcount s h' b := by
   intro h' b hh
-  have := handle_block_agree r0 nb evs s h hst h' b hh
+  have := handle_block_agree r0 nb evs s h h' b hh
   omega
 
 def w (t : Nat) (verb : Verb) (key : Key) (rev : Option Nat) (pl : Payload) : Ev :=
   .call { t := t, fault := .none, verb := verb, key := key, rev := rev, pl := pl }
 
-/-- FALSE without `stale = 0`: the log of the real client (fault free; replay
-corpus/C19/stale-delete.ops).  Threads 3 and 4 = `ReleaseByHandle(h1)`, thread 5 =
-`AssignIP(h1)`.  4 deletes the now empty, unaffine block; 3's compare-and-delete is
-answered NotFound, which `releaseByHandle` treats as success and goes on to
-`decrementHandle` for the address that 4 released (and 4 decrements too); in
-between 5 re-creates the block and allocates under the same handle: the handle
-object is deleted while an address is live for it. -/
-def staleTrace : List Ev :=
-  [w 1 .create (.aff 0 0) none (.affSt .pending),
-   w 1 .create (.blk 0) none (.blkCreate 0 2),
-   w 1 .update (.aff 0 0) (some 104) (.affSt .confirmed),
-   w 1 .create (.hdl 1) none (.hInc 0 1),
-   w 1 .update (.blk 0) (some 105) (.blkRmw [] (.assignIP 1 0) []),
-   .endOp 1 [(0, 0)],
-   w 2 .update (.aff 0 0) (some 106) (.affSt .pendingDeletion),
-   w 2 .update (.blk 0) (some 108) (.blkRmw [] .clearAff []),
-   w 2 .delete (.aff 0 0) (some 109) .affDel,
-   .endOp 2 [],
-   w 4 .delete (.blk 0) (some 110) (.blkDelete [] (some (.relh 1)) [0]),
-   w 3 .delete (.blk 0) (some 110) (.staleDel 1 1),
-   w 5 .create (.aff 1 0) none (.affSt .pending),
-   w 5 .create (.blk 0) none (.blkCreate 1 2),
-   w 5 .update (.aff 1 0) (some 113) (.affSt .confirmed),
-   w 5 .update (.hdl 1) (some 107) (.hInc 0 1),
-   w 5 .update (.blk 0) (some 114) (.blkRmw [] (.assignIP 1 1) []),
-   .endOp 5 [(0, 1)],
-   w 3 .update (.hdl 1) (some 116) (.hDec 0 1),
-   .endOp 3 [],
-   w 4 .delete (.hdl 1) (some 118) (.hDec 0 1),
-   .endOp 4 []]
+/-- Why `handle_block_agree_quiescent` needs "no token outstanding": a client that stops
+between `incrementHandle` and its block write (crash) leaves its token unspent and the
+handle over-counting the block forever.  (Until repair 2a2a7ee the real AssignIP did the
+same on every CAS-conflict retry, and until e889066 releaseByHandle decremented without a
+token; `corpus/C19/assignip-retry.ops` and `stale-delete.ops` are the regression guards.) -/
+def abandonedTrace : List Ev :=
+  [w 1 .create (.blk 0) none (.blkCreate 0 2),
+   .call { t := 2, fault := .crashAfter, verb := .create, key := .hdl 3, rev := none, pl := .hInc 0 1 }]
 
-def staleEnd : St := (run (St.init 103 2) staleTrace).getD (St.init 0 0)
-theorem run_stale : run (St.init 103 2) staleTrace = some staleEnd := by rfl
+theorem abandoned_increment_overcounts :
+    ∃ s, run (St.init 100 1) abandonedTrace = some s ∧
+      hcount s 3 0 = 1 ∧ liveAt s 0 3 = 0 ∧ credTot 3 0 s.creds = 1 :=
+  ⟨_, rfl, by decide, by decide, by decide⟩
 
-/-- Unconditional agreement — even the ≥ direction — is false of the current code. -/
-theorem handle_block_agree_unconditional_false :
-    ¬ (∀ evs s, run (St.init 103 2) evs = some s →
-        ∀ h b, h ≠ 0 → liveAt s b h + credTot h b s.creds ≤ hcount s h b) := by
-  intro H
-  have := H staleTrace staleEnd run_stale 1 0 (by decide)
-  revert this
-  decide
-
-/-- "No token outstanding" is NOT the same as "every operation has returned": the log of
-a fault-free `AssignIP(h3)` (thread 2) whose block write met a CAS conflict
-(thread 1 wrote the block in between).  AssignIP retries WITHOUT taking back the
-handle increment it had made, increments again, and returns: its first token is
-never spent and the handle over-counts the block (2 vs 1) forever. -/
-def assignRetryTrace : List Ev :=
-  [w 2 .create (.aff 0 1) none (.affSt .pending),
-   w 2 .create (.blk 1) none (.blkCreate 0 8),
-   w 1 .update (.aff 0 1) (some 105) (.affSt .pending),
-   w 1 .update (.blk 1) (some 106) (.blkRmw [] .bump []),
-   w 1 .update (.aff 0 1) (some 107) (.affSt .confirmed),
-   w 2 .update (.aff 0 1) (some 105) .noev,
-   w 1 .create (.hdl 1) none (.hInc 1 1),
-   w 1 .update (.blk 1) (some 108) (.blkRmw [] (.assign 1 1 []) []),
-   .endOp 1 [(1, 0)],
-   w 2 .create (.hdl 3) none (.hInc 1 1),
-   w 2 .update (.blk 1) (some 106) .noev,
-   w 2 .update (.hdl 3) (some 112) (.hInc 1 1),
-   w 2 .update (.blk 1) (some 111) (.blkRmw [] (.assignIP 3 1) []),
-   .endOp 2 [(1, 1)]]
-
-theorem assignip_retry_overcounts :
-    ∃ s, run (St.init 104 2) assignRetryTrace = some s ∧ s.stale = 0 ∧
-      hcount s 3 1 = 2 ∧ liveAt s 1 3 = 1 ∧ credTot 3 1 s.creds = 1 :=
-  ⟨_, rfl, by decide, by decide, by decide, by decide⟩
-
-/-- Every address returned to a caller (`endOp` is admissible only then) is in the
-caller's `got` list … -/
+/-- (The admissibility guard of the model's `endOp` event unfolded: the driver accepts the
+addresses a real operation returns only if they are in the caller's `got` list.)  Every
+address returned to a caller is in the caller's `got` list … -/
 theorem returned_is_recorded (s s' : St) (t : Nat) (addrs : List (Nat × Nat))
     (h : step s (.endOp t addrs) = some s') : ∀ a ∈ addrs, a ∈ s.got t := by
   simp only [step] at h
@@ -156,18 +101,20 @@ theorem returned_is_recorded (s s' : St) (t : Nat) (addrs : List (Nat × Nat))
     exact hc
   · cases h
 
-/-- … and `got` grows only by the caller's own successful compare-and-swap on that
-block, which stored the address as live: "an address is returned only after the
-CAS that records it succeeded", at every step of every reachable execution. -/
+/-- … and `got` grows only by the caller's own successful compare-and-swap on that block —
+an allocating read-modify-write `op` carrying the caller's handle `opHandle op` — which
+stored the address as live FOR THAT HANDLE: "an address is returned only after the CAS
+that records it for the caller's handle succeeded", at every step of every reachable
+execution. -/
 theorem recorded_by_own_cas (r0 nb : Nat) (evs : List Ev) (s s' : St) (e : Ev)
     (hr : run (St.init r0 nb) evs = some s) (h : step s e = some s')
     (t b o : Nat) (hin : (b, o) ∈ s'.got t) (hnot : (b, o) ∉ s.got t) :
     ∃ c, e = Ev.call c ∧ c.t = t ∧ c.key = Key.blk b ∧
       casOutcome (s.curRev c.key) c.verb c.rev c.fault = Outcome.ok ∧
-      ∃ rv v h', s'.blk b = some (rv, v) ∧ v.slots[o]? = some (Slot.live h') :=
-  got_grows_only_by_own_cas (wf_invariant r0 nb evs s hr) h hin hnot
-
-/-- non-vacuity of the invariants: both logs are runs of the model. -/
-example : staleEnd.stale = 1 ∧ hcount staleEnd 1 0 = 0 ∧ liveAt staleEnd 0 1 = 1 := by decide
+      ∃ g1 op g2 rv v, c.pl = Payload.blkRmw g1 op g2 ∧ s'.blk b = some (rv, v) ∧
+        v.slots[o]? = some (Slot.live (opHandle op)) := by
+  obtain ⟨c, h1, h2, h3, h4, g1, op, g2, rv, v, h5, h6, h7, _⟩ :=
+    got_grows_only_by_own_cas (wf_invariant r0 nb evs s hr) h hin hnot
+  exact ⟨c, h1, h2, h3, h4, g1, op, g2, rv, v, h5, h6, h7⟩
 
 end CalicoVerif.C19
